@@ -134,24 +134,45 @@ def save_restore(ctx):
 
 def layer(ctx):
     init = F(ctx, "parallel_config.__init__")
+    g = cfg_of(init)
     st = assigns_to(init, "self.parallel_config")
     ctx.need(st, "self.parallel_config is not built in __init__")
+    comps, loops_ = [], []
     for a in st:
         v = a.value
-        ctx.check(isinstance(v, ast.Call) and call_name(v) == "self.old_parallel_config.copy", a, "the new configuration starts as a COPY of the previous one (outer dict is not mutated, unset keys inherit)",
+        is_copy = (isinstance(v, ast.Call) and call_name(v) == "self.old_parallel_config.copy") or \
+                  (isinstance(v, ast.Call) and call_name(v) in ("dict", "copy.copy") and len(v.args) == 1 and dotted(v.args[0]) == "self.old_parallel_config")
+        is_merge = isinstance(v, ast.Dict) and v.keys and v.keys[0] is None and dotted(v.values[0]) == "self.old_parallel_config"
+        ctx.check(is_copy or is_merge, a, "the new configuration starts as a COPY of the previous one (outer dict is not mutated, unset keys inherit)",
                   "the new configuration is not a copy of the previous one: %s" % unparse(v))
-    ups = [c for c in calls_in(init) if call_name(c) == "self.parallel_config.update"]
-    ctx.need(ups, "no update of the copied configuration")
-    for c in ups:
+        if is_merge:
+            for k_, v_ in zip(v.keys[1:], v.values[1:]):
+                ctx.check(k_ is None and isinstance(v_, ast.DictComp), a, "merged with the filtered explicit settings")
+                if k_ is None and isinstance(v_, ast.DictComp):
+                    comps.append((a, v_))
+    for c in [c for c in calls_in(init) if call_name(c) == "self.parallel_config.update"]:
         a0 = c.args[0] if c.args else None
-        ok = isinstance(a0, ast.DictComp) and len(a0.generators) == 1
-        ctx.need(ok, "update argument is not a dict comprehension (shape not recognised)")
+        ctx.need(isinstance(a0, ast.DictComp) and len(a0.generators) == 1, "update argument is not a dict comprehension (shape not recognised)")
+        comps.append((c, a0))
+    for lp in nodes_of_type(init, ast.For):
+        for s_ in [x for x in ast.walk(lp) if isinstance(x, ast.Assign) and any(isinstance(t, ast.Subscript) and dotted(t.value) == "self.parallel_config" for t in x.targets)]:
+            loops_.append((lp, s_))
+    ctx.need(comps or loops_, "no update of the copied configuration")
+    for c, a0 in comps:
         gen = a0.generators[0]
         vname = gen.target.elts[1].id if isinstance(gen.target, ast.Tuple) else None
         filt = [i for i in gen.ifs if isinstance(i, ast.UnaryOp) and isinstance(i.op, ast.Not) and isinstance(i.operand, ast.Call) and call_name(i.operand) == "isinstance" and dotted(i.operand.args[0]) == vname and dotted(i.operand.args[1]) == "_Sentinel"]
         ctx.check(bool(filt) and len(gen.ifs) == 1, c, "only explicitly given (non-sentinel) entries override the inherited ones", "override filter is %s" % [unparse(i) for i in gen.ifs])
         ctx.check(isinstance(gen.iter, ast.Call) and call_name(gen.iter) == "new_config.items", c, "entries come from new_config")
         ctx.check(dotted(a0.key) == gen.target.elts[0].id and dotted(a0.value) == vname, c, "keys and values are copied unchanged")
+    for lp, s_ in loops_:
+        kname, vname = (lp.target.elts[0].id, lp.target.elts[1].id) if isinstance(lp.target, ast.Tuple) and len(lp.target.elts) == 2 else (None, None)
+        facts = g.fact_set(g.nodes_of(s_))
+        ctx.check(("isinstance(%s, _Sentinel)" % vname, False) in facts and len([f_ for f_ in facts if vname and vname in str(f_[0])]) == 1, s_,
+                  "only explicitly given (non-sentinel) entries override the inherited ones", "the override loop stores an entry under %s" % sorted(facts))
+        ctx.check(isinstance(lp.iter, ast.Call) and call_name(lp.iter) == "new_config.items", s_, "entries come from new_config")
+        tgt = [t for t in s_.targets if isinstance(t, ast.Subscript)][0]
+        ctx.check(dotted(tgt.slice) == kname and dotted(s_.value) == vname, s_, "keys and values are copied unchanged")
     for n in body_walk(init):
         if isinstance(n, ast.Subscript) and dotted(n.value) == "self.old_parallel_config" and isinstance(n.ctx, (ast.Store, ast.Del)):
             ctx.bad(n, "the previous configuration dict is mutated")
@@ -235,7 +256,7 @@ def keys(ctx):
             elif isinstance(a0, ast.Name) and isinstance(a2, ast.Name):
                 # comprehension form: for param, k in [(max_nbytes, "max_nbytes"), ...]
                 for comp in ast.walk(pinit):
-                    if isinstance(comp, ast.comprehension) and isinstance(comp.iter, ast.List) and isinstance(comp.target, ast.Tuple) and [dotted(e) for e in comp.target.elts] == [a0.id, a2.id]:
+                    if isinstance(comp, (ast.comprehension, ast.For)) and isinstance(comp.iter, (ast.List, ast.Tuple)) and isinstance(comp.target, ast.Tuple) and [dotted(e) for e in comp.target.elts] == [a0.id, a2.id]:
                         for e in comp.iter.elts:
                             ctx.check(isinstance(e, ast.Tuple) and dotted(e.elts[0]) == const_value(e.elts[1]), e, "(%s, %r) pair: variable and key agree" % (dotted(e.elts[0]), const_value(e.elts[1])),
                                       "pair %s resolves a parameter under another key" % unparse(e))
